@@ -4,4 +4,4 @@ From ZV Require Import Sync.Model.
 Extraction Language OCaml.
 Extraction "model.ml" Z.of_N N.of_nat Nat.add
   sm_get sm_set is_already_applied is_continue_commit prefilter postprocess apply_entry apply_phases apply_log
-  init_node step run proj counter appended source_state snm_get snm_set apply_snaps apply_log_snaps.
+  init_node step0 step run proj counter appended source_state snm_get snm_set apply_snaps apply_log_snaps apply_status_rsp.
